@@ -546,3 +546,74 @@ def array_bounds(fn, max_states=6000):
     except AnalysisBroken:
         pass            # what was judged until then stands; the rest is not judged
     return len(judged), list(bad.values())
+
+
+def error_paths_fail(fn, max_states=20000):
+    """The library's error contract: a call that fills in its `PError **` argument has failed.  On every path of fn on which
+    p_error_set_error_p was called with fn's own error parameter, the value returned is a failure value (FALSE / NULL / a negative
+    constant).  -> (number of error-setting paths judged, [(line of the return, returned text, line of the error report)])"""
+    ep = [p_["name"] for p_ in fn.d.get("params", []) if "PError" in (p_.get("ts") or "")]
+    if not ep or (fn.d.get("ret_ts") or fn.d.get("rts") or "") == "void":
+        return 0, []
+    ep = ep[0]
+    judged = [0]
+    bad = []
+
+    def on_stmt(st, b, i, stmt):
+        facts, setat, passed = st
+        for c in calls(stmt):
+            if c.get("callee") == "p_error_set_error_p" and c.get("args") and root_var(c["args"][0]) == ep:
+                setat = line(c)
+            elif c.get("callee") and any(strip_casts(a) is not None and strip_casts(a)["k"] == "ref" and strip_casts(a)["name"] == ep for a in c.get("args", ())):
+                passed = passed + ((guards.key(c), line(c)),)          # a callee that reports through the same argument when it fails
+        if stmt["k"] == "ret":
+            if setat is None:
+                for (k_, ln_) in passed:
+                    failed = guards.lookup(facts, k_) == 0 or any(fop == "=:" and fv == k_ and guards.lookup(facts, fk) == 0 for (fk, fop, fv) in facts)
+                    if failed:
+                        setat = ln_
+            if setat is not None and stmt.get("e") is not None:
+                judged[0] += 1
+                v = cv(stmt["e"])
+                if v is None:
+                    v = guards.eval_const(stmt["e"], facts)
+                if v is None or v > 0:
+                    bad.append((line(stmt), show(stmt["e"]), setat))
+            return []
+        return [(guards.transfer(facts, stmt), setat, passed)]
+
+    def on_edge(st, b, to, on):
+        f2 = guards.edge_assume(st[0], b, on)
+        return None if f2 is None else (f2, st[1], st[2])
+    try:
+        Flow(fn, [(guards.EMPTY, None, ())], on_stmt, on_edge, max_states=max_states).run()
+    except AnalysisBroken:
+        return 0, []
+    seen = set()
+    out = []
+    for x in bad:
+        if x[0] not in seen:
+            seen.add(x[0])
+            out.append(x)
+    return judged[0], out
+
+
+def check_error_contract(rep, rule, prog, units, floor):
+    """One obligation per unit: every path that reports through the error argument returns a failure value."""
+    total = 0
+    for un in units:
+        u = prog.units.get(un)
+        if u is None:
+            continue
+        j, bad = 0, []
+        for fn in sorted(u.functions.values(), key=lambda f: f.loc[0]):
+            a, b = error_paths_fail(fn)
+            j += a
+            bad += [(fn,) + x for x in b]
+        total += j
+        anchor = bad[0][0] if bad else sorted(u.functions.values(), key=lambda f: f.loc[0])[0]
+        rep.ob(rule, anchor, "errors:fail", not bad, "%d paths of %s that fill in the error argument return a failure value" % (j, un) if not bad else
+               "line %d: %s returns %s on a path that reported an error at line %d: the caller is told the call succeeded and goes on with an object the failure path has "
+               "already cleaned up (or never finished)" % (bad[0][1], bad[0][0].name, bad[0][2], bad[0][3]), bad[0][1] if bad else anchor.loc[0])
+    if total < floor:
+        raise AnalysisBroken("error contract: only %d error-reporting paths found in %s (expected at least %d)" % (total, ", ".join(units), floor))
